@@ -101,16 +101,18 @@ def run(ctx):
     callers = sorted({a for a, _ in sites})
     names = sorted({t['callee']['name'] for f in prog.fns if 'HashMapContext' not in f.path for _, t in f.calls() if is_mutator(t['callee'])})
     ctx.check(callers == ['operator::Operator::eval_mut'] and names == ['set_value'], 'R11.4', 'context-mutators', 'who-may-call', 'inside the crate, context state is changed only by Operator::eval_mut (or a private helper called only from it) calling set_value (callers found: %s, mutators called: %s)' % (callers, names))
-    # R11.5 sibling evaluators
-    a = prog.fn('tree::Node::<NumericTypes>::eval_with_context')
-    m = prog.fn('tree::Node::<NumericTypes>::eval_with_context_mut')
-    if a is None or m is None:
-        ctx.unrecognised('R11.5', 'Node::eval_with_context~_mut', 'missing', 'evaluators not found')
-    else:
-        def norm(s):
-            return short(s).replace('eval_with_context_mut', 'eval_with_context').replace('eval_mut', 'eval')
-        ok, info = cfg_isomorphic(a, m, norm)
-        ctx.check(ok, 'R11.5', 'Node::eval_with_context~eval_with_context_mut', 'sibling', 'the two recursive evaluators are structurally identical up to the _mut names (%s)' % (info,), span=m.span)
+    # R11.5 sibling evaluators: both walks satisfy the same specification (C08's evaluator rule: children in order, each once, with the
+    # caller's context, first error wins, then Operator::eval resp. eval_mut on the collected values), so they differ only in the
+    # dispatcher they end in. The earlier block-by-block comparison of the two bodies alarmed whenever the walk was shared through a
+    # generic helper or only one of them was restyled, and was replaced by this.
+    from rules.c08 import evaluator
+    from rules.c05 import _Renamed
+    for name, opname in (('eval_with_context', 'eval'), ('eval_with_context_mut', 'eval_mut')):
+        g = prog.fn('tree::Node::<NumericTypes>::' + name)
+        if g is None:
+            ctx.unrecognised('R11.5', 'Node::' + name, 'missing', 'evaluator not found')
+            continue
+        evaluator(_Renamed(ctx, 'R11.5'), prog, g, name, opname)
 
 
 def witness(ctx):
